@@ -11,6 +11,8 @@
 //
 //	entry "stream":    Runnable.Stream(input), the output chunks are concatenated
 //	entry "transform": Runnable.Transform(stream of the input cut into one chunk per top-level key)
+//	entry "collect":   Runnable.Collect(the same input stream): the result is a value (round 5: the fourth public
+//	                   entry point; the run is the stream form, the output is concatenated by eino)
 package main
 
 import (
@@ -122,6 +124,13 @@ func invokeEntry(ctx context.Context, bt *gg.Built, input *gg.Val, entry string,
 		var res result
 		res.p = lib.Recover(func() {
 			var sr *schema.StreamReader[gg.M]
+			if entry == "collect" {
+				res.out, res.err = bt.R.Collect(ctx, schema.StreamReaderFromArray(inputChunks(input)), opts...)
+				if res.err == nil && gg.Unbounded(res.out) {
+					res.out, res.err = nil, errors.New(gg.UnboundedMsg)
+				}
+				return
+			}
 			if entry == "transform" {
 				sr, res.err = bt.R.Transform(ctx, schema.StreamReaderFromArray(inputChunks(input)), opts...)
 			} else {
